@@ -441,4 +441,122 @@ theorem decode_pieces (mhdr a0 a1 a2 a3 fc c0 c1 : UInt8) (fo body mic : Bytes) 
     rw [← hfo, List.drop_left']; rfl
   rw [t1, t2, t3, t4]
 
+/-! ## further pieces: payload replacement, xor involution, reading back what the encoder wrote -/
+
+theorem msgOf_pieces (mhdr a0 a1 a2 a3 fc c0 c1 : UInt8) (fo body mic : Bytes) (hmic : mic.length = 4) :
+    Spec.msgOf (frameOf mhdr a0 a1 a2 a3 fc c0 c1 fo body mic) = mhdr :: a0 :: a1 :: a2 :: a3 :: fc :: c0 :: c1 :: (fo ++ body) := by
+  unfold Spec.msgOf
+  have : (frameOf mhdr a0 a1 a2 a3 fc c0 c1 fo body mic).length - 4 = (mhdr :: a0 :: a1 :: a2 :: a3 :: fc :: c0 :: c1 :: (fo ++ body)).length := by
+    simp [frameOf, hmic]; omega
+  rw [this]
+  have : frameOf mhdr a0 a1 a2 a3 fc c0 c1 fo body mic = (mhdr :: a0 :: a1 :: a2 :: a3 :: fc :: c0 :: c1 :: (fo ++ body)) ++ mic := by
+    simp [frameOf]
+  rw [this, List.take_left']
+  rfl
+
+theorem withPayload_pieces (mhdr a0 a1 a2 a3 fc c0 c1 : UInt8) (fo : Bytes) (p : UInt8) (frm plain mic : Bytes) (ft : FType)
+    (hmic : mic.length = 4) :
+    Spec.withPayload (frameOf mhdr a0 a1 a2 a3 fc c0 c1 fo (p :: frm) mic)
+        (specViewOf ft a0 a1 a2 a3 fc c0 c1 fo (p :: frm) mic) plain
+      = frameOf mhdr a0 a1 a2 a3 fc c0 c1 fo (p :: plain) mic := by
+  unfold Spec.withPayload
+  have hv : (specViewOf ft a0 a1 a2 a3 fc c0 c1 fo (p :: frm) mic).frm = frm := rfl
+  have hm : (specViewOf ft a0 a1 a2 a3 fc c0 c1 fo (p :: frm) mic).mic = mic := rfl
+  rw [hv, hm]
+  have hl : (frameOf mhdr a0 a1 a2 a3 fc c0 c1 fo (p :: frm) mic).length - 4 - frm.length
+      = (mhdr :: a0 :: a1 :: a2 :: a3 :: fc :: c0 :: c1 :: (fo ++ [p])).length := by
+    simp [frameOf, hmic]; omega
+  have hsplit : frameOf mhdr a0 a1 a2 a3 fc c0 c1 fo (p :: frm) mic
+      = (mhdr :: a0 :: a1 :: a2 :: a3 :: fc :: c0 :: c1 :: (fo ++ [p])) ++ (frm ++ mic) := by simp [frameOf]
+  rw [hl, hsplit, List.take_left']
+  · simp [frameOf]
+  · rfl
+
+theorem withPayload_nil (b : Bytes) (v : Spec.DataView) (mhdr a0 a1 a2 a3 fc c0 c1 : UInt8) (fo body mic : Bytes) (ft : FType)
+    (hb : b = frameOf mhdr a0 a1 a2 a3 fc c0 c1 fo body mic) (hv : v = specViewOf ft a0 a1 a2 a3 fc c0 c1 fo body mic)
+    (hmic : mic.length = 4) (hbody : body.length ≤ 1) :
+    Spec.withPayload b v [] = b := by
+  subst hb hv
+  unfold Spec.withPayload
+  have hv : (specViewOf ft a0 a1 a2 a3 fc c0 c1 fo body mic).frm = [] := by
+    simp only [specViewOf]
+    match body, hbody with
+    | [], _ => rfl
+    | [_], _ => rfl
+  have hm : (specViewOf ft a0 a1 a2 a3 fc c0 c1 fo body mic).mic = mic := rfl
+  rw [hv, hm]
+  have hl : (frameOf mhdr a0 a1 a2 a3 fc c0 c1 fo body mic).length - 4 - ([] : Bytes).length
+      = (mhdr :: a0 :: a1 :: a2 :: a3 :: fc :: c0 :: c1 :: (fo ++ body)).length := by
+    simp [frameOf, hmic]; omega
+  have hsplit : frameOf mhdr a0 a1 a2 a3 fc c0 c1 fo body mic
+      = (mhdr :: a0 :: a1 :: a2 :: a3 :: fc :: c0 :: c1 :: (fo ++ body)) ++ mic := by simp [frameOf]
+  rw [hl, hsplit, List.take_left']
+  · simp
+  · rfl
+
+theorem decrypt_untouched_or_ok (c : Cipher) (b : Bytes) (nwk app : Option Key) (N : UInt32) :
+    (decryptInPlace c b nwk app N).2 = b ∨ ∃ p, (decryptInPlace c b nwk app N).1 = .ok p := by
+  unfold decryptInPlace
+  simp only []
+  repeat' split
+  all_goals first | (left; rfl) | (right; exact ⟨_, rfl⟩)
+
+theorem xor_xor (p K : Bytes) (h : p.length ≤ K.length) : Spec.xorBytes (Spec.xorBytes p K) K = p := by
+  induction p generalizing K with
+  | nil => rfl
+  | cons x xs ih =>
+    cases K with
+    | nil => simp at h
+    | cons k ks =>
+      simp only [Spec.xorBytes, List.zipWith_cons_cons] at ih ⊢
+      rw [ih ks (by simpa using h)]
+      congr 1
+      rw [UInt8.xor_assoc, UInt8.xor_self]; simp
+
+theorem crypt_involutive (c : Cipher) (k : Key) (dir : UInt8) (a f : UInt32) (p : Bytes) :
+    Spec.cryptPayload c k dir a f (Spec.cryptPayload c k dir a f p) = p := by
+  have hl := cryptPayload_length c k dir a f p
+  unfold Spec.cryptPayload at hl ⊢
+  rw [hl]
+  exact xor_xor p _ (by rw [keystream_length]; omega)
+
+theorem fctrl_read : ∀ (n : Fin 16) (up adr req ack pend : Bool),
+    (Spec.fctrlOf up adr req ack pend n.val).toNat % 16 = n.val
+    ∧ Spec.testBit (Spec.fctrlOf up adr req ack pend n.val) 7 = adr
+    ∧ (up && Spec.testBit (Spec.fctrlOf up adr req ack pend n.val) 6) = (up && req)
+    ∧ Spec.testBit (Spec.fctrlOf up adr req ack pend n.val) 5 = ack
+    ∧ (!up && Spec.testBit (Spec.fctrlOf up adr req ack pend n.val) 4) = (!up && pend) := by decide +kernel
+
+theorem mhdr_read (ft : FType) :
+    (Spec.mhdrData ft).toNat % 4 = 0 ∧ Spec.mtypeOfCode ((Spec.mhdrData ft).toNat / 32) = some ft := by
+  cases ft <;> decide
+
+theorem fromLe_le (n v : Nat) : Spec.fromLe (Spec.le n v) = v % 256 ^ n := by
+  induction n generalizing v with
+  | zero => simp [Spec.le, Spec.fromLe, Nat.mod_one]
+  | succ n ih =>
+    simp only [Spec.le, Spec.fromLe, ih]
+    have : (UInt8.ofNat (v % 256)).toNat = v % 256 := by simp
+    rw [this, Nat.pow_succ, Nat.mul_comm (256 ^ n) 256, Nat.mod_mul]
+
+theorem le_cons4 (v : Nat) : ∃ a0 a1 a2 a3, Spec.le 4 v = [a0, a1, a2, a3] := ⟨_, _, _, _, rfl⟩
+theorem le_cons2 (v : Nat) : ∃ c0 c1, Spec.le 2 v = [c0, c1] := ⟨_, _, rfl⟩
+
+theorem mic_length (c : Cipher) (k : Key) (dir : UInt8) (a f : UInt32) (m : Bytes) : (Spec.dataMic c k dir a f m).length = 4 := by
+  simp [Spec.dataMic]
+
+theorem layoutOf_congr (ft : FType) (fo body body' : Bytes) (h : body.length = body'.length) :
+    layoutOf ft fo body = layoutOf ft fo body' := by
+  unfold layoutOf; rw [h]
+
+theorem toDesc_norm (s : Spec.DataDesc) (a0 a1 a2 a3 c0 c1 : UInt8) (body' mic : Bytes) (hfo : s.fopts.length ≤ 15)
+    (haddr : UInt32.ofNat (Spec.fromLe [a0, a1, a2, a3]) = s.devAddr)
+    (hb : (body'.head?).map (fun p => (p, body'.drop 1)) = s.body) :
+    (specViewOf s.ftype a0 a1 a2 a3 (Spec.fctrl s) c0 c1 s.fopts body' mic).toDesc s.fcnt
+        (specViewOf s.ftype a0 a1 a2 a3 (Spec.fctrl s) c0 c1 s.fopts body' mic).frm = s.norm := by
+  obtain ⟨hf1, hf2, hf3, hf4, hf5⟩ := fctrl_read ⟨s.fopts.length, by omega⟩ s.ftype.isUplink s.adr s.adrAckReq s.ack s.fPending
+  simp only [Spec.DataView.toDesc, specViewOf, Spec.DataDesc.norm, haddr, Spec.fctrl]
+  simp only [] at hf2 hf3 hf4 hf5
+  rw [hf2, hf3, hf4, hf5, hb]
+
 end Lora.C02Lemmas
